@@ -110,6 +110,24 @@ struct FaultPoint {
   vs_rec rec;
 };
 
+// Is the library under test built without its assertions (the .rel binaries)?
+// A hard failure of the parent's read of the child's error report is ruled out
+// by an ASSERT in the library, so it is injected only where the assertions are
+// compiled out - the build in which the code after it decides what happens.
+inline bool asserts_off()
+{
+  static int v = -1;
+  if (v < 0) {
+    char buf[4096];
+    ssize_t n = readlink("/proc/self/exe", buf, sizeof(buf) - 1);
+    buf[n > 0 ? n : 0] = 0;
+    size_t l = strlen(buf);
+    v = l > 4 && !strcmp(buf + l - 4, ".rel");
+  }
+  return v == 1;
+}
+enum { CHOICE_READ_EIO = 100 };
+
 struct FaultSpec {
   int side = 0, index = 0, fn = -1, kind = 0, err = 0;
   long long value = 0;
@@ -952,6 +970,12 @@ inline SweepTable &table()
       auto ch = fault_choices(t.points[(size_t) s][i].fn, t.points[(size_t) s][i].rec);
       size_t lim = thorough ? ch.size() : std::min<size_t>(ch.size(), 2);
       for (size_t c = 0; c < lim; c++) t.singles.push_back({ s, (int) i, (int) c });
+      // read() of the error report failing for good (not EINTR): only alone,
+      // only where the start would otherwise succeed (with a child that fails
+      // on its own the report is simply lost - two failures, K6), only without
+      // assertions
+      const FaultPoint &fp = t.points[(size_t) s][i];
+      if (fp.fn == VS_READ && fp.side == VS_PARENT && !natural_failure(s) && asserts_off()) t.singles.push_back({ s, (int) i, CHOICE_READ_EIO });
     }
   }
   if (thorough) {
@@ -966,7 +990,8 @@ inline SweepTable &table()
 inline FaultSpec make_fault(const FaultPoint &fp, int choice)
 {
   auto ch = fault_choices(fp.fn, fp.rec);
-  const FaultChoice &c = ch[(size_t) choice % ch.size()];
+  static const FaultChoice read_eio = { VS_FK_ERRNO, EIO, 0, "EIO" };
+  const FaultChoice &c = choice == CHOICE_READ_EIO ? read_eio : ch[(size_t) choice % ch.size()];
   FaultSpec f;
   f.side = fp.side;
   f.index = fp.index;
